@@ -91,6 +91,11 @@ def eval_case(c):
     viol = []
     cnt = {'comparisons': 0}
 
+    def V(key, desc):
+        cnt['comparisons'] += 1
+        if sum(1 for v in viol if v['key'] == key) < 2:
+            viol.append({'key': key, 'desc': desc, 'data': {}})
+
     def cmp(name, got, exp, tol, key, scale=None):
         cnt['comparisons'] += 1
         got = complex(got)
@@ -132,6 +137,28 @@ def eval_case(c):
         for j in range(3):
             ke = 3.0 / (2 * (l - 1)) / (1 + m_l / (Js[j] * mu))
             cmp('complex_love_general array element', ka[j], ke, 16 * EPS, 'complex-love-general', scale=max(abs(ke), abs(ke) * abs(m_l / (Js[j] * mu))))
+        # degree-2 helper on arrays; the helpers are pure: the caller's arrays are untouched and a repeated call returns the same values
+        Js_snap, mus_snap = Js.copy(), mus.copy()
+        if not (np.array_equal(Js, np.array([J, J * (1 + 0.5j), J / 3])) and np.array_equal(mus, mus_snap)):
+            V('helper-mutates-input', 'complex_love_general / effective_rigidity_general changed the array passed by the caller')
+        k2a = calc_complex_love(Js, mu, er2)
+        for j in range(3):
+            ke = 1.5 / (1 + m2 / (Js_snap[j] * mu))
+            cmp('complex_love (l=2) array element', k2a[j], ke, 16 * EPS, 'complex-love-l2', scale=max(abs(ke), abs(ke) * abs(m2 / (Js_snap[j] * mu))))
+        if not np.array_equal(Js, Js_snap):
+            V('helper-mutates-input', f'complex_love (l=2) changed the compliance array passed by the caller: {Js_snap.tolist()} -> {Js.tolist()}')
+        Js = Js_snap.copy()
+        k2b = calc_complex_love(Js, mu, er2)
+        kgb = calc_complex_love_general(Js, mu, er_g, l)
+        if not (np.array_equal(k2b.view(float), np.asarray(k2a).view(float)) and np.array_equal(kgb.view(float), np.asarray(ka).view(float))):
+            V('helper-not-repeatable', 'a second call of complex_love / complex_love_general with the same arguments returned different values')
+        if not np.array_equal(Js, Js_snap):
+            V('helper-mutates-input', 'complex_love / complex_love_general changed the compliance array passed by the caller (second call)')
+        era2 = calc_effective_rigidity(mus, g, R, rho)
+        for j, mm in enumerate(mus_snap):
+            cmp('effective_rigidity (l=2) array element', era2[j], 9.5 * mm / (rho * g * R), 8 * EPS, 'effective-rigidity-l2')
+        if not np.array_equal(mus, mus_snap):
+            V('helper-mutates-input', 'effective_rigidity changed the shear-modulus array passed by the caller')
         nontriv = abs(k_exp) > 1e-9 and abs(ks_exp - 3.0 / (2 * (l - 1))) > 1e-9 * ks_exp
         obs = {'k_exact': k_exp, 'm_l': m_l, 'k_static': ks_exp}
     elif kind == 'quick':
